@@ -20,7 +20,8 @@ Est == { [fam |-> "C18", kind |-> "estimate", send |-> t, delay |-> d,
 Cap == { [fam |-> "C18", kind |-> "capture", t |-> t, class |-> "capture"] : t \in Instants }
 Offs == { [fam |-> "C18", kind |-> "offset", d |-> [neg |-> n, sec |-> s[1], nsec |-> s[2]], class |-> "offset" \o (IF n THEN "_negative" ELSE "")]
          : n \in BOOLEAN, s \in { <<0, 0>>, <<0, 1>>, <<0, 2>>, <<0, 999999999>>, <<1, 0>>, <<1, 1>>, <<2147483647, 999999999>>, <<2147483647, 0>>,
-                                   <<2147483646, 500000000>>, <<3600, 250000000>>, <<0, 232>>, <<0, 233>>, <<86400, 1>> } }
+                                   <<2147483646, 500000000>>, <<3600, 250000000>>, <<0, 232>>, <<0, 233>>, <<86400, 1>>,
+                                   <<2, 0>>, <<3, 0>>, <<60, 0>>, <<61, 0>>, <<3600, 0>>, <<86400, 0>>, <<2147483646, 0>>, <<1073741824, 0>>, <<1, 999999999>>, <<2, 500000000>> } }
 Raw == SetToSeq(Est) \o SetToSeq(Cap) \o SetToSeq(Offs)
 CaseSeq == [i \in 1..Len(Raw) |-> Raw[i] @@ [case |-> i]]
 ASSUME \A i \in 1..Len(Raw) : Raw[i].kind = "estimate" => ValidDelay(Raw[i].delay)
